@@ -571,9 +571,9 @@ Definition run_parsers (fn : Z) (a : sx) : sx :=
            (parse_list_line dec (fun _ => oracle_of_sx (nth_sx 2 a))
                             (fun _ => oracle_of_sx (nth_sx 3 a)) (text_of_sx (nth_sx 1 a)))
   | 5 => sx_of_result sx_of_entry (parse_mlsx_line dec (text_of_sx (nth_sx 1 a)))
-  | 6 => sx_of_result (fun v => L [sx_of_text (fst v); I (snd v)])
+  | 6 => sx_of_result (fun v => L [sx_of_text (fst v); sx_of_text (str_of_Z (snd v))])
                       (parse_pasv_response (text_of_sx (nth_sx 0 a)))
-  | 7 => sx_of_result I (parse_epsv_response (text_of_sx (nth_sx 0 a)))
+  | 7 => sx_of_result (fun z => sx_of_text (str_of_Z z)) (parse_epsv_response (text_of_sx (nth_sx 0 a)))
   | 8 => sx_of_text (parse_directory_response (text_of_sx (nth_sx 0 a)))
   | 9 => (* parse_response: enc, limit, stream bytes *)
       sx_of_rresult (reply_parse dec (z_of_sx (nth_sx 1 a)) (split_lines (text_of_sx (nth_sx 2 a))))
@@ -593,7 +593,7 @@ Definition run_parsers (fn : Z) (a : sx) : sx :=
                        I (match react ladder_as_read e with
                           | RContinue451 => 0 | RReraise => 1 | REndSession => 2 end)]
       end
-  | 13 => sx_of_option I (py_int (text_of_sx (nth_sx 0 a)))
+  | 13 => sx_of_option (fun z => sx_of_text (str_of_Z z)) (py_int (text_of_sx (nth_sx 0 a)))
   | 14 => sx_of_text (posix_norm (text_of_sx (nth_sx 0 a)))
   | 15 => sx_of_text (posix_div (text_of_sx (nth_sx 0 a)) (text_of_sx (nth_sx 1 a)))
   | 16 => sx_of_option sx_of_text (decode_with enc (text_of_sx (nth_sx 1 a)))
